@@ -565,3 +565,51 @@ Proof.
   - apply (exists_pair_intro _ ns (e_src x) (e_src y) Irr Sym Sx Sy). cbv beta. now rewrite PE, PS.
   - apply (exists_pair_intro _ ns (e_dst x) (e_dst y) Irr Sym Dx Dy). cbv beta. now rewrite PE, PD.
 Qed.
+
+(* ---------------------------------------------------------------- representatives of groups *)
+Lemma less_first_key {A} (kv : string -> A -> val) s r x y :
+  step_ok s = true -> kv (guard s) x <> kv (guard s) y ->
+  less kv (s :: r) x y = vlt (sdir s) (kv (guard s) x) (kv (guard s) y).
+Proof.
+  intros OK N. cbn. apply String.eqb_eq in OK. rewrite <- OK.
+  apply val_eqb_neq in N. now rewrite N.
+Qed.
+
+Lemma sorted_by_map_first_key {A} (kv : string -> A -> val) s r (l : list A) :
+  step_ok s = true -> NoDup (map (kv (guard s)) l) ->
+  sorted_by (less kv (s :: r)) l -> sorted_by (vlt (sdir s)) (map (kv (guard s)) l).
+Proof.
+  intros OK. induction l as [|x l IH]; intros ND S; cbn; [constructor|].
+  cbn in ND. apply NoDup_cons_iff in ND. destruct ND as [NI ND].
+  apply StronglySorted_inv in S. destruct S as [S M].
+  constructor; [now apply IH|].
+  rewrite Forall_forall in *. intros b Hb. apply in_map_iff in Hb. destruct Hb as [y [E Hy]]. subst b.
+  rewrite <- (less_first_key kv s r y x OK).
+  - now apply M.
+  - intro E. apply NI. rewrite <- E. now apply in_map.
+Qed.
+
+(* if the comparator's first step is on the key that defines the groups, the order of the groups
+   does not depend on which member represents each group *)
+Theorem representative_order_independent_lemma {A} (kv : string -> A -> val) s r :
+  step_ok s = true -> group_order_independent (kv (guard s)) (less kv (s :: r)).
+Proof.
+  intros OK l1 l2 ND P S1 S2.
+  assert (ND2 : NoDup (map (kv (guard s)) l2)) by (eapply Permutation_NoDup; eassumption).
+  apply (sorted_perm_eq (vlt (sdir s))); try assumption.
+  - intros x y _ _ L1 L2. destruct (val_eqb x y) eqn:E; [now apply val_eqb_eq|].
+    apply val_eqb_neq in E. destruct (vlt_total (sdir s) x y E); congruence.
+  - now apply (sorted_by_map_first_key kv s r).
+  - now apply (sorted_by_map_first_key kv s r).
+Qed.
+
+(* and without it the order of the groups CAN depend on the representative: two files, the first
+   represented by either of two lines, sorted by a weight-first order *)
+Lemma representative_order_dependent_witness :
+  let c := [{| guard := "abs64(.Flat)"; decide := "abs64(.Flat)"; sdir := Desc |};
+            {| guard := ".Info.File"; decide := ".Info.File"; sdir := Asc |}]%string in
+  let nd := fun id file flat => {| n_id := id; n_info := {| ni_name := "helper"; ni_orig := ""; ni_addr := 0; ni_file := file;
+               ni_startline := 0; ni_lineno := id; ni_colno := 0; ni_objfile := "" |}; n_flat := flat; n_cum := flat; n_score := 0 |}%string in
+  map (node_kv ".Info.File") (sort_by node_kv c [nd 1 "a.c" 1; nd 4 "b.c" 10])
+  <> map (node_kv ".Info.File") (sort_by node_kv c [nd 2 "a.c" 50; nd 4 "b.c" 10]).
+Proof. vm_compute. intro H. discriminate H. Qed.
